@@ -20,6 +20,8 @@ import Vita.C03.Sig
 import Vita.C03.EffSound
 import Vita.C03.SigPath
 import Vita.C03.GenSigPath
+import Vita.C03.PackLemmas
+import Vita.C03.GenPack
 import Vita.Common.Murmur
 
 namespace Vita.C03
@@ -187,6 +189,117 @@ theorem de_hash_eq_iff (v w : List Nat) (hv : ∀ x ∈ v, x < 2 ^ 64) (hw : ∀
   · intro h; rw [h]
 
 end identity
+
+/-! ## Part A′ — the same statements about the code as TRANSLATED from the clang AST
+
+`GenPack` is regenerated from the current sources on every run (tools/translate_pack.py):
+`i_mep::pack`, `i_mep::hash`, `i_ga::hash`, `i_de::hash`, `team::hash`, `hash_t::combine`.  The
+terms must be the ones the model was written from (`*_as_modelled`, by `decide`); the meaning
+of those terms (`PackSyn.runPack`, `MepHashSyn.run`, …) is proved equal to the model, so the
+theorems of Part A hold for the generated terms. -/
+
+section translated
+open PackSyn USyn
+
+theorem gen_pack_as_modelled : GenPack.pack = packAsModelled := by decide
+theorem gen_mepHash_as_modelled : GenPack.mepHash = mepHashAsModelled := by decide
+theorem gen_gaHash_as_modelled : GenPack.gaHash = gaHashAsModelled := by decide
+theorem gen_deHash_as_modelled : GenPack.deHash = deHashAsModelled := by decide
+theorem gen_teamHash_as_modelled : GenPack.teamHash = teamHashAsModelled := by decide
+theorem gen_combine_as_modelled : GenPack.combine = combineAsModelled := by decide
+
+/-- the translated `i_mep::pack` computes `Model.pack` on every genome -/
+theorem gen_pack_eq_model (tab : SymTab) (g : Genome) (l : Locus) :
+    runPack GenPack.pack tab g l = pack tab g l := by
+  rw [gen_pack_as_modelled]; exact runPack_asModelled tab g l
+
+/-- layout independence, for the translated code -/
+theorem gen_pack_layout_indep (tab : SymTab) (g : Genome) (wf : WF tab g) (l : Locus)
+    (hi : l.1 < g.rows) (hc : l.2 < g.cols) :
+    ∃ t, unfold tab g l = some t ∧ WFT tab t ∧
+      runPack GenPack.pack tab g l = some (packTree tab t) := by
+  rw [gen_pack_eq_model]; exact pack_layout_indep tab g wf l hi hc
+
+/-- equal streams ⇔ equal active trees, for the translated code (16-bit opcodes, all eight
+    parameter bytes: this is where "single precision" or "skip the high byte" would fail) -/
+theorem gen_pack_injective (tab : SymTab) (g1 g2 : Genome) (wf1 : WF tab g1) (wf2 : WF tab g2)
+    (l1 l2 : Locus) (h1 : l1.1 < g1.rows ∧ l1.2 < g1.cols) (h2 : l2.1 < g2.rows ∧ l2.2 < g2.cols) :
+    runPack GenPack.pack tab g1 l1 = runPack GenPack.pack tab g2 l2 ↔
+      unfold tab g1 l1 = unfold tab g2 l2 := by
+  rw [gen_pack_eq_model, gen_pack_eq_model]
+  exact pack_eq_iff_tree_eq tab g1 g2 wf1 wf2 l1 l2 h1 h2
+
+/-- the translated `i_mep::hash` returns the hash of exactly the stream packed from `best()`,
+    whatever an earlier call left in the scratch buffer -/
+theorem gen_mep_hash {H : Type} [HashLike H] (Hf : Bytes → H) (tab : SymTab) (c : MepC) (b0 : Bytes) :
+    GenPack.mepHash.run Hf ((runPack GenPack.pack tab c.g c.best).getD []) b0 =
+      some (mepHash Hf tab c) := by
+  rw [gen_mepHash_as_modelled, gen_pack_eq_model, mepHash_asModelled]; rfl
+
+/-- the translated `i_ga::hash` / `i_de::hash` hash the raw bytes of every element -/
+theorem gen_ga_hash {H : Type} [HashLike H] (Hf : Bytes → H) (v : List Nat) :
+    GenPack.gaHash.run Hf v = some (gaHash Hf v) := by
+  rw [gen_gaHash_as_modelled, gaHash_asModelled]; rfl
+
+theorem gen_de_hash {H : Type} [HashLike H] (Hf : Bytes → H) (v : List Nat) :
+    GenPack.deHash.run Hf v = some (deHash Hf v) := by
+  rw [gen_deHash_as_modelled, deHash_asModelled]; rfl
+
+/-- the translated `team::hash` is the left fold of `combine` over the members' signatures, in
+    member order, from the empty hash -/
+theorem gen_team_hash {C H : Type} [HashLike H] (hashOf : C → H) (ms : List (Cached C H)) :
+    GenPack.teamHash.run (ms.map (signatureVal hashOf)) = some (teamHash hashOf ms) := by
+  rw [gen_teamHash_as_modelled, teamHash_asModelled]
+  simp [teamHash, List.foldl_map]
+
+/-- the translated `hash_t::combine` is `data[k] = data[k] * 37 + h.data[k]` -/
+theorem gen_combine_eq (a h : Vita.Murmur.Hash) :
+    runCombine GenPack.combine a h = a.combine h := by
+  rw [gen_combine_as_modelled]; rfl
+
+/-! `hash_t::combine` and the order of the members of a team -/
+
+/-- changing the LAST member combined changes the result -/
+theorem combine_inj_right (a x y : Vita.Murmur.Hash) (h : a.combine x = a.combine y) : x = y := by
+  cases x; cases y
+  simp only [Vita.Murmur.Hash.combine, Vita.Murmur.Hash.mk.injEq] at h
+  simp only [Vita.Murmur.Hash.mk.injEq]
+  exact ⟨by grind, by grind⟩
+
+/-- … and so does changing what was accumulated before (37 is odd) -/
+theorem combine_inj_left (a b x : Vita.Murmur.Hash) (h : a.combine x = b.combine x) : a = b :=
+  foldl_combine_inj_acc [x] a b h
+
+/-- two teams that differ in exactly one member (whose signatures differ) never collide through
+    `combine`: the fold is injective in every single position -/
+theorem team_hash_one_member (p s : List Vita.Murmur.Hash) (x y a : Vita.Murmur.Hash)
+    (h : (p ++ x :: s).foldl Vita.Murmur.Hash.combine a = (p ++ y :: s).foldl Vita.Murmur.Hash.combine a) :
+    x = y := by
+  simp only [List.foldl_append, List.foldl_cons] at h
+  exact combine_inj_right _ _ _ (foldl_combine_inj_acc s _ _ h)
+
+/-- the order of the members matters: exchanging two adjacent members with signatures `x`, `y`
+    keeps the team hash only if `36·x = 36·y` in both words, i.e. `x ≡ y (mod 2^62)` — a
+    commutative `combine` (x + y, x xor y) would make this an unconditional equality -/
+theorem team_hash_swap_iff (s : List Vita.Murmur.Hash) (x y a : Vita.Murmur.Hash) :
+    (x :: y :: s).foldl Vita.Murmur.Hash.combine a = (y :: x :: s).foldl Vita.Murmur.Hash.combine a ↔
+      36 * x.d0 = 36 * y.d0 ∧ 36 * x.d1 = 36 * y.d1 := by
+  simp only [List.foldl_cons]
+  constructor
+  · intro h
+    have := foldl_combine_inj_acc s _ _ h
+    simp only [Vita.Murmur.Hash.combine, Vita.Murmur.Hash.mk.injEq] at this
+    exact ⟨(swap37_iff _ _ _).1 this.1, (swap37_iff _ _ _).1 this.2⟩
+  · intro h
+    have e : (a.combine x).combine y = (a.combine y).combine x := by
+      simp only [Vita.Murmur.Hash.combine, Vita.Murmur.Hash.mk.injEq]
+      exact ⟨(swap37_iff _ _ _).2 h.1, (swap37_iff _ _ _).2 h.2⟩
+    rw [e]
+
+example : ([⟨1, 0⟩, ⟨2, 0⟩] : List Vita.Murmur.Hash).foldl Vita.Murmur.Hash.combine ⟨0, 0⟩ ≠
+    ([⟨2, 0⟩, ⟨1, 0⟩] : List Vita.Murmur.Hash).foldl Vita.Murmur.Hash.combine ⟨0, 0⟩ := by decide
+
+end translated
 
 /-! non-vacuity: a concrete symbol table and two layouts of `ADD(X, 2.5)` with different introns -/
 section example_
